@@ -3,9 +3,35 @@ import os, sys
 sys.path.insert(0, os.path.dirname(os.path.abspath(__file__)))
 META = {
     "level": "proof",
-    "trusted_base": ["contracts/gate_contracts.h"],
-    "assumptions": [],
-    "undecided_part": "",
+    "trusted_base": [
+        "contracts/gate_contracts.h + the contracts compile_file (harness/gate_nanoc_h.c) and run_shadow_tests (harness/gate_shadow_h.c), "
+        "written from the property statement",
+        "tools/annotate.py: loop-contract clauses (contracts/loops/main.c.gate.loops, eval.c.shadow*.loops) and FOUR ghost statements "
+        "around the one evaluation of a shadow body in run_shadow_tests (before: 'counter != 0 -> reset_violated', 'uses_extern -> "
+        "skipped_evaluated', 'bodies++'; after: 'counter > 0 -> any_failed')",
+    ],
+    "assumptions": [
+        "C06.gate.nanoc = the compile_file obligation of C05 (same harness, postcondition 3 + the assertion in the transpile_to_c stub): "
+        "all assumptions of obligations/c05.py about cut callees, the path cut at transpile_to_c and --no-standard-checks apply",
+        "compile_modules (cc on imported C modules, objects in the module directories) runs BEFORE the shadow gate by design; it is "
+        "recorded as modules_built, not as the executable at the output path",
+        "C06.loop: eval_statement (the interpreter) is contract-replaced by 'may change the per-test failure bookkeeping arbitrarily, "
+        "nothing else that run_shadow_tests reads'; contains_extern_calls and shadow_write_json_file are contract-replaced by 'no effect'; "
+        "env_get_function getenv dup dup2 open close fflush fprintf are stubs; all other function bodies of eval.c are removed from the "
+        "goto binary before the dfcc pass (unreachable after the replacements; goto-instrument runs out of memory otherwise)",
+        "C06.loop (quick): realloc of the failure-report array returns NULL (-DVERIF_REALLOC_FAILS: a legal allocator behaviour; no "
+        "report entries are then recorded).  The complete allocator model (realloc may succeed, growing in place inside a 512-byte pool) "
+        "is C06.loop.report, thorough tier (every write through the loop-havocked `failures` pointer costs ~60 s of symbolic execution: "
+        "~6.5 min); measured PROVED.  The report array feeds only the JSON report, never the result",
+        "the ghost statements tie the specification to the ONE textual call eval_statement(item->as.shadow.body, env); a second "
+        "evaluation of a shadow body elsewhere would not be seen",
+    ],
+    "undecided_part": "Direction 'all assertions hold and the program is otherwise valid => the executable IS produced' is not decided: "
+                      "the part of compile_file behind transpile_to_c contains writes type_name[len] with len taken from scanned text "
+                      "(src/main.c:791-792, 831-832) that cannot be framed without a memory-safety assumption, and the C compiler is "
+                      "outside the model.  'Names the failing test' (fprintf text) is not observed.  That every false assertion bumps "
+                      "the counter is C03.assert / the AST_ASSERT arm of eval_statement, not this unit.  The missing-shadow diagnostic "
+                      "(C06.missing, typechecker.c) is not in this unit.",
 }
 NOCHK = ["--no-standard-checks"]
 GI = ["--no-malloc-may-fail"]
